@@ -54,6 +54,9 @@ def build_dataset(rng, fam, tmp, tag, *, variant=0):
             kw.pop('w'), kw.pop('h')
             kw['mesh'] = gen.lattice_mesh(rng, 2, 2, variety=False, drop=False)
     d = gen.any_dataset(rng, fam, **kw)
+    if variant % 3 == 2 and fam != 'cf1d':
+        # index coordinates with unsorted labels on the grid dimensions (row ids): cells are addressed by position
+        d.ds = gen.label_dimensions(rng, d.ds, [x for k in d.spec['kinds'].values() for x in k])
     ds = d.ds
     kinds = d.spec['kinds']
     added = gen.add_data_vars(rng, ds, kinds, names_prefix='c', n_extra_max=2, dtypes=('f8', 'f8', 'i4', 'i4fill', 'i4fill0', 'i4missing'))
@@ -70,20 +73,30 @@ def build_dataset(rng, fam, tmp, tag, *, variant=0):
     ds['zero_fill'] = xarray.DataArray((numpy.arange(int(numpy.prod(fshape)), dtype='i4') + 1).reshape(fshape), dims=fdims,
                                        attrs={'_FillValue': numpy.int32(0)})
     added = added + [('zero_fill', 'face', fdims)]
+    # a field that the file stores packed (int16 + scale_factor + add_offset): non-integral physical values
+    ds['packed_face'] = xarray.DataArray((numpy.arange(int(numpy.prod(fshape)), dtype='f8') * 0.375 + 9.625).reshape(fshape), dims=fdims,
+                                         attrs={'long_name': 'packed on disk'})
+    added = added + [('packed_face', 'face', fdims)]
     ds.attrs['history'] = 'generated for clipping'
     ds.attrs['note'] = tag
     return d, added
 
 
-def write(ds, path, int_connectivity=True):
+def write(ds, path, int_connectivity=True, small_edge_face_fill=False):
     enc = {}
     for v in ds.variables:
         a = ds[v]
         if a.dtype.kind == 'f' and '_FillValue' not in a.attrs:
             enc[v] = {'_FillValue': None}
+        if str(v) == 'packed_face':
+            # stored packed: 16-bit integers with scale_factor / add_offset (every value is exactly representable)
+            enc[v] = {'dtype': 'int16', 'scale_factor': 0.125, 'add_offset': 10.0, '_FillValue': numpy.int16(-32768)}
         if int_connectivity and str(v) in CONN.values() and a.dtype.kind == 'f':
             # the usual file: integers with a _FillValue on disk, which xarray decodes to float with NaN
             enc[v] = {'dtype': 'int32', '_FillValue': numpy.int32(999999)}
+            if str(v) == CONN['edge_face'] and small_edge_face_fill:
+                # a fill value just above the face numbers (and below the number of edges): no face has that number
+                enc[v]['_FillValue'] = numpy.int32(ds.sizes['nMesh2_face'] + 2)
     with warnings.catch_warnings():
         warnings.simplefilter('ignore')
         ds.to_netcdf(path, encoding=enc)
@@ -150,7 +163,10 @@ def flows(ctx, n_ds, quick):
         d, added = build_dataset(rng, fam, tmp, f'ds{n}', variant=n // len(gen.FAMILIES))
         src = os.path.join(tmp, f'src_{n}.nc')
         int_conn = rng.random() < 0.6
-        write(d.ds, src, int_conn)
+        small_fill = fam == 'ugrid' and (n // len(gen.FAMILIES)) % 2 == 1
+        if small_fill:
+            int_conn = True
+        write(d.ds, src, int_conn, small_fill)
         raw_mode = rng.random() < 0.25 or ((n // len(gen.FAMILIES)) % 3 == (0 if fam == 'ugrid' else 1))          # opened with mask_and_scale=False: integer fill attributes stay attributes
         open_kw = {'mask_and_scale': False} if raw_mode else {}
         with warnings.catch_warnings():
@@ -210,7 +226,7 @@ def flows(ctx, n_ds, quick):
                     mask.load()
                     second = other_data(d.ds, added)
                     spath = os.path.join(tmp, f'second_{n}_{len(out)}.nc')
-                    write(second, spath, int_conn)
+                    write(second, spath, int_conn, small_fill)
                     target = emsarray.open_dataset(spath, **open_kw)
                     target.load()
                     if n % 2 == 0:
@@ -300,7 +316,16 @@ def expected_grid_var(f, name, masks, bounds):
         # the clipped pieces are written to netCDF and read back with xarray's default decoding: cells holding the
         # fill value come back as missing (NaN) - compare decoded values
         want = want.astype('f8').where(want != fill)
+        want = cf_unpack(want, a.attrs)
     return 'masked', want, mname
+
+
+def cf_unpack(values, attrs):
+    """CF unpacking of undecoded values (dataset opened with mask_and_scale=False): the clipped pieces go through netCDF files
+    that are read back with the default decoding"""
+    if 'scale_factor' in attrs or 'add_offset' in attrs:
+        return values * float(attrs.get('scale_factor', 1.0)) + float(attrs.get('add_offset', 0.0))
+    return values
 
 
 def same_values(a, b):
